@@ -1,6 +1,8 @@
 (* Correspondence for the value-level models: minimize() of shrink.go and the reachability witnesses. *)
 From Coq Require Import List NArith ZArith Bool.
-Require Import Rapid.Model.Base Rapid.Model.Minimize Rapid.Model.Witness.
+Require Import Rapid.Model.Base Rapid.Model.Syntax Rapid.Model.Monad Rapid.Model.Prim Rapid.Model.Engine Rapid.Model.Corr
+  Rapid.Model.Minimize Rapid.Model.Witness.
+Require Import Rapid.Generated.GeomTable.
 Import ListNotations.
 Local Open Scope N_scope.
 
@@ -39,3 +41,27 @@ Definition reach_ok (c : reach_case) : bool :=
           else urange_wit (Z.to_N (rc_mn c)) (Z.to_N (rc_mx c)) (Z.to_N (rc_v c))).
 Definition reach_mismatches (cs : list reach_case) : list nat :=
   map rc_id (filter (fun c => negb (reach_ok c)) cs).
+
+(* integer draws on arbitrary streams (selector words from all over the 53-bit range, the overflow-to-max region and its
+   boundary in particular): the model's genIntRange / genUintRange against what the real generator returned *)
+Record draw_case := mkDraw { dr_id : nat; dr_signed : bool; dr_mn : Z; dr_mx : Z; dr_stream : list N; dr_got : option Z }.
+Definition draw_model (c : draw_case) : option Z :=
+  let s := start (SBuf (dr_stream c)) in
+  if dr_signed c then
+    match res (genIntRange (geom_of geom_tab) LF0 (dr_mn c) (dr_mx c) s) with
+    | Ok (v, _, _) => Some v
+    | Err _ => None
+    end
+  else
+    match res (genUintRange (geom_of geom_tab) LF0 (Z.to_N (dr_mn c)) (Z.to_N (dr_mx c)) true s) with
+    | Ok (u, _, _) => Some (Z.of_N u)
+    | Err _ => None
+    end.
+Definition oz_eqb (a b : option Z) : bool :=
+  match a, b with
+  | Some x, Some y => Z.eqb x y
+  | None, None => true
+  | _, _ => false
+  end.
+Definition draw_mismatches (cs : list draw_case) : list nat :=
+  map dr_id (filter (fun c => negb (oz_eqb (draw_model c) (dr_got c))) cs).
